@@ -36,7 +36,7 @@ try:
                            env=dict(os.environ, PYTHONPATH="/repo"), cwd=out, timeout=600)
         res["demo_clean"] = {"rc": d.returncode, "tail": (d.stdout + d.stderr)[-300:]}
     if a.tests:
-        t = subprocess.run(["/tmp/mut/run_tests.sh", tree], capture_output=True, text=True, timeout=1800)
+        t = subprocess.run(["/verif/tools/mut/run_tests.sh", tree], capture_output=True, text=True, timeout=1800)
         res["tests"] = {"rc": t.returncode, "tail": t.stdout[-600:]}
     procs = {}
     pending = list(ids)
